@@ -26,7 +26,7 @@ def verify_unit(name, vacuity=False, seed=None, rlimit=None, suffix=""):
     unit = m.build(vacuity=vacuity)
     text = unit.text()
     os.makedirs(vxlib.OUT, exist_ok=True)
-    path = os.path.join(vxlib.OUT, f"{name}{'.vacuity' if vacuity else ''}{suffix}.rs")
+    path = os.path.join(vxlib.OUT, f"{name}{'_vacuity' if vacuity else ''}{suffix}.rs")
     with open(path, "w") as f:
         f.write(text)
     an = vxlib.Analysis(text)
